@@ -206,10 +206,11 @@ Fixpoint run_ops (fuel : nat) (st : sst) (ts : list str) (acc : list str) : list
                 end
             | _ => rev_append (s_bad :: acc) []
             end
-          else if chr 69 op then (* E w|s : the next append / force-seal fails at its write / fsync *)
+          else if chr 69 op then (* E w|p|s : the next append / force-seal fails at its write (nothing written / first half written) / fsync *)
             match r with
             | k :: r1 =>
-                let f := if chr 119 k then FWrite else if chr 115 k then FSync else FNone in
+                let f := if chr 119 k then FWrite else if chr 112 k then FWriteShort
+                         else if chr 115 k then FSync else FNone in
                 run_ops fuel' {| s_info := s_info st; s_file := s_file st; s_w := s_w st;
                                  s_mode := s_mode st; s_pre := s_pre st; s_fault := f |} r1 acc
             | [] => rev_append (s_bad :: acc) []
